@@ -585,6 +585,129 @@ fn gen_text(rng: &mut Rng, sents: &[String]) -> String {
     parts.join(sep)
 }
 
+/// The switches at the SERVER: one session per user configuration through the real `Backend`
+/// (in process, over the wire format). Between two publications the client asks for code actions,
+/// ignores nothing, changes the text: every publication must be exactly what harper-core reports
+/// for that text under that configuration (curated defaults for what the user left open, the
+/// user's explicit choices everywhere else) — before AND after every other request.
+fn eval_server(sess: &mut Session, ctx: &Ctx, linters: &Value, script: &[&str], texts: &[String]) -> Result<(), crate::lsclient::LsError> {
+    use crate::config::Config;
+    use crate::diagnostics::lints_to_diagnostics;
+    use crate::lsclient::*;
+    use harper_core::linting::LintGroup;
+    use harper_core::{Document, FstDictionary};
+    set_home(&ctx.out.join("c11-home"));
+    let cfg = json!({"harper-ls": {"linters": linters}});
+    let expected = |text: &str| -> Vec<String> {
+        let dict = FstDictionary::curated();
+        let lcfg = Config::from_lsp_config(cfg.clone()).unwrap();
+        let doc = Document::new_plain_english(text, &dict);
+        let mut g = LintGroup::new_curated(dict.clone(), lcfg.dialect).with_lint_config(lcfg.lint_config.clone());
+        g.config.fill_with_curated();
+        let lints = g.lint(&doc);
+        let v = serde_json::to_value(lints_to_diagnostics(doc.get_full_content(), &lints, lcfg.diagnostic_severity)).unwrap();
+        let mut out: Vec<String> = v.as_array().map(|a| a.iter().map(|d| format!("{}:{}-{}:{} {}", d["range"]["start"]["line"], d["range"]["start"]["character"], d["range"]["end"]["line"], d["range"]["end"]["character"], d["message"].as_str().unwrap_or(""))).collect()).unwrap_or_default();
+        out.sort();
+        out
+    };
+    let show = |v: &Value| -> Vec<String> {
+        let mut out: Vec<String> = v.as_array().map(|a| a.iter().map(|d| format!("{}:{}-{}:{} {}", d["range"]["start"]["line"], d["range"]["start"]["character"], d["range"]["end"]["line"], d["range"]["end"]["character"], d["message"].as_str().unwrap_or(""))).collect()).unwrap_or_default();
+        out.sort();
+        out
+    };
+    let uri = "file:///c11-server/doc.txt".to_string();
+    let mut ls = LsSession::start()?;
+    ls.initialize(&cfg)?;
+    let mut ver = 0usize;
+    let mut cur: Option<String> = None;
+    let mut done: Vec<String> = vec![];
+    for step in script {
+        match *step {
+            "open" | "change" => {
+                let t = texts[ver % texts.len()].clone();
+                ver += 1;
+                if *step == "open" {
+                    ls.notify("textDocument/didOpen", did_open(&uri, "plaintext", &t))?;
+                } else {
+                    ls.notify("textDocument/didChange", did_change(&uri, ver as i64, &t))?;
+                }
+                ls.quiesce(&cfg)?;
+                cur = Some(t);
+            }
+            "action" => {
+                // a request at every fourth column of the first line (some inside a flagged word)
+                let n = cur.as_ref().map(|t| t.lines().next().unwrap_or("").chars().count()).unwrap_or(0);
+                for c in (0..n).step_by(4) {
+                    let params = json!({"textDocument": {"uri": uri}, "range": {"start": {"line": 0, "character": c}, "end": {"line": 0, "character": c + 1}}, "context": {"diagnostics": []}});
+                    ls.request_sync("textDocument/codeAction", params, &cfg)?;
+                }
+            }
+            "close" => {
+                ls.notify("textDocument/didClose", did_close(&uri))?;
+                ls.quiesce(&cfg)?;
+                cur = None;
+            }
+            _ => {}
+        }
+        done.push(step.to_string());
+        if let (Some(t), true) = (&cur, *step == "open" || *step == "change") {
+            sess.o();
+            let want = expected(t);
+            let got = ls.last_publication(&uri).map(|v| show(v)).unwrap_or_default();
+            sess.count(&format!("server:diagnostics:{}", want.len().min(6)));
+            if want != got {
+                let only_pub: Vec<&String> = got.iter().filter(|g| !want.contains(g)).take(3).collect();
+                let only_core: Vec<&String> = want.iter().filter(|g| !got.contains(g)).take(3).collect();
+                sess.fail(
+                    "server-switch-not-obeyed",
+                    format!("through the real Backend, linters = {}: after {:?} the publication for {:?} is not what harper-core reports under this configuration — published only: {:?}; expected only: {:?}", linters, done, t, only_pub, only_core),
+                    json!({"kind": "server", "linters": linters, "script": script, "texts": texts}),
+                    None,
+                );
+                break;
+            } else {
+                sess.nontrivial(&format!("server|{}|{:?}", linters, done));
+            }
+        }
+    }
+    ls.shutdown(&cfg)?;
+    Ok(())
+}
+
+fn run_server(sess: &mut Session, ctx: &Ctx, only: Option<(&Value, Vec<String>, Vec<String>)>) {
+    let texts: Vec<String> = vec![
+        "There is a tset here, and we bought 3 apples. this is very boring, and it is an test.".into(),
+        "There is a tset here, and we bought 3 apples. this is very boring, and it is an test. More text.".into(),
+        "We bought 3 apples and a tset. this is very very boring.".into(),
+    ];
+    let configs = [
+        json!({}),
+        json!({"SpellCheck": false, "SpelledNumbers": true}),
+        json!({"SentenceCapitalization": false, "BoringWords": true}),
+        json!({"AnA": false, "RepeatedWords": false, "SpellCheck": true}),
+        json!({"SpellCheck": null, "BoringWords": true, "NoSuchRule": true}),
+    ];
+    let scripts: [&[&str]; 4] = [
+        &["open", "change", "change"],
+        &["open", "action", "change", "action", "change"],
+        &["action", "open", "action", "action", "change", "close", "open", "action", "change"],
+        &["open", "change", "action", "close", "action", "open", "change"],
+    ];
+    let mut ok = true;
+    if let Some((l, sc, tx)) = only {
+        let sc: Vec<&str> = sc.iter().map(|s| s.as_str()).collect();
+        ok &= eval_server(sess, ctx, l, &sc, &tx).is_ok();
+    } else {
+        for l in &configs {
+            for sc in scripts {
+                ok &= eval_server(sess, ctx, l, sc, &texts).is_ok();
+                sess.count("origin:server-session");
+            }
+        }
+    }
+    sess.monitor("the in-process language server completed the C11 sessions", ok);
+}
+
 pub fn run(ctx: &Ctx) {
     if std::env::var_os("HOME").is_none() {
         unsafe { std::env::set_var("HOME", "/tmp") };
@@ -628,6 +751,11 @@ pub fn run(ctx: &Ctx) {
             "json" => {
                 let c: CfgMap = serde_json::from_value(v["config"].clone()).unwrap_or_default();
                 json_checks(&mut sess, &c, true);
+            }
+            "server" => {
+                let sc: Vec<String> = serde_json::from_value(v["script"].clone()).unwrap_or_default();
+                let tx: Vec<String> = serde_json::from_value(v["texts"].clone()).unwrap_or_default();
+                run_server(&mut sess, ctx, Some((&v["linters"], sc, tx)));
             }
             _ => {
                 let extra: Vec<CfgMap> = serde_json::from_value(v["configs"].clone()).unwrap_or_default();
@@ -744,10 +872,12 @@ pub fn run(ctx: &Ctx) {
     for r in results {
         absorb(&mut sess, &mut hloc, r);
     }
+    // ---- the switches at the server (real Backend, explicit user choices, code actions between publications)
+    run_server(&mut sess, ctx, None);
     sess.add("hloc:chunk-contents-checked", hloc.checked);
     sess.add("hloc:chunk-contents-seen-again", hloc.repeated);
     sess.finish(
-        "corpus; exhaustive: merge_from over all pairs of configurations on 3 keys × {absent,null,off,on}, every single operation on all 64 such configurations × 4 keys, fill_with_curated of all 64 user configurations over (curated-on rule, curated-off rule, unknown key), merge orders over 16³ triples; random op sequences / merges / fills with the real rule names and hostile unknown keys; serde_json round trip and Config::from_lsp_config; lint_is_combination: 1–3 rule-test sentences (plain / Markdown), every rule run alone on new groups, ≥10 combined configurations per document (all-on, curated+user, firing-only, sparse, dense, toggle pairs, partitions, unknown keys). Non-trivial = op sequences of >1 op, merges with a Some value, documents on which ≥2 rules fire.",
+        "corpus; exhaustive: merge_from over all pairs of configurations on 3 keys × {absent,null,off,on}, every single operation on all 64 such configurations × 4 keys, fill_with_curated of all 64 user configurations over (curated-on rule, curated-off rule, unknown key), merge orders over 16³ triples; random op sequences / merges / fills with the real rule names and hostile unknown keys; serde_json round trip and Config::from_lsp_config; lint_is_combination: 1–3 rule-test sentences (plain / Markdown), every rule run alone on new groups, ≥10 combined configurations per document (all-on, curated+user, firing-only, sparse, dense, toggle pairs, partitions, unknown keys); the switches at the server: 5 user configurations × 4 scripts of didOpen / didChange / codeAction / didClose through the real Backend, every publication = harper-core's lints under that configuration. Non-trivial = op sequences of >1 op, merges with a Some value, documents on which ≥2 rules fire.",
         true,
         json!({"switch_names": all.len(), "names_in_both_rule_maps": shared, "whole_document_rules": names.doc.len(), "pattern_rules": names.pat.len(), "cache_capacity": cap, "cache_capacity_from_source": cap_ok,
                "exhaustive_scope": "merge: 64×64 configurations on 3 keys; single ops: 64 configurations × 4 keys × 6 ops; fill: 64 user configurations; merge order: 16×16×16"}),
